@@ -484,10 +484,13 @@ class FitBase(FileIOMixin, object):
 
     @data.setter
     def data(self, new_data):
+        _old_data_container = self._data_container
         self._set_new_data(new_data)
         # validate cost function
         _data_and_cost_compatible, _reason = self._cost_function.is_data_compatible(self.data)
         if not _data_and_cost_compatible:
+            # a rejected data set must not replace the old one
+            self._data_container = _old_data_container
             raise ValueError("Fit data and cost function are not compatible: %s" % _reason)
         self._set_new_parametric_model()
         self._param_model._on_error_change_callback = self._on_error_change
